@@ -472,3 +472,26 @@ class HistoryGen:
         if r < 0.40: return self.c.do({'k': 'D'})
         if r < 0.43: return self.c.do({'k': 'Q'})
         return self.request()
+
+# ------------------------------------------------------------------ replay of a recorded failing input
+def replay_generic(prop, path, features=None):
+    """./check Cxx --replay file: run the harness on the recorded step list(s) and show what the implementation answers now.
+    exit 1 when the recorded (failing) observations are reproduced, 0 when the implementation now answers differently."""
+    d = json.load(open(path))
+    items = d.get('failing') or [b for b in d.get('broken', []) if isinstance(b, dict) and b.get('case')]
+    ok, out, bindir = cargo_build(['vfs'], features=features)
+    if not ok:
+        print(out[-2000:]); return 2
+    rc = 0
+    for it in items[:5]:
+        inp = it.get('input') or it.get('case')
+        if not inp or 'harness_input' not in inp: continue
+        r, o = run([os.path.join(bindir, 'vfs')], input='\n'.join(inp['harness_input']) + '\n', timeout=120)
+        lines = [l for l in o.split('\n') if l and not l.startswith('CASE')]
+        same = lines == inp.get('observed', [])[:len(lines)] and len(lines) >= len(inp.get('observed', []))
+        print('--- %s' % (it.get('what') or it.get('name') or '')[:200])
+        for a, b in list(zip(inp['harness_input'][1:], lines))[-6:]: print('   %s\n      => %s' % (a[:200], b[:300]))
+        print('   %s' % ('REPRODUCED: the implementation answers exactly as recorded' if same else 'NOT reproduced: the implementation now answers differently'))
+        if same: rc = 1
+    if not items: print('no concrete input recorded in this replay file (a proof obligation or the tie broke): %s' % json.dumps(d.get('broken', [])[:2])[:1500])
+    return rc
